@@ -57,8 +57,10 @@ def run(chk, F, tier):
     import rules_ivl
     rules_ivl.run_c18(chk, F, "default", tier)
     # numeric safety of the byte-level functions
-    chk.rule("V2.numeric", floor=20, doc="E3 obligations of the byte-level and bit-stream VByte functions (index bounds of the 10-byte buffer, shifts, arithmetic) modulo lemma L6 and stream-domain assumptions")
-    rn.run_specs(chk, F, [s for s in rn.code_specs() if s.key.startswith("vbyte.")], "V2.numeric", "default")
+    chk.rule("V2.numeric", floor=14, doc="E3 obligations of the byte-level and bit-stream VByte functions (index bounds of the 10-byte buffer, shifts, arithmetic) modulo lemma L6 and stream-domain assumptions")
+    import rules_ivl
+    rn.run_specs(chk, F, [s for s in rn.code_specs() if s.key.startswith("vbyte.") and s.key not in rules_ivl.E7_COVERED], "V2.numeric", "default")
+    rules_ivl.run_domain_e7(chk, F, "default", tier, "V2.numeric", [k for k in rules_ivl.E7_COVERED if k.startswith("vbyte.")])
 
 
 def run_all(chk, fsets, tier):
